@@ -110,6 +110,10 @@ func VerifyLemma(p *Program, lm *spec.Lemma, opt Options) FnReport {
 			fc.Used["lemma "+other.Name+" (proved separately)"] = true
 		}
 		if lm.Induct == "" {
+			for hi2, h := range lm.Hints {
+				fc.oblige("lemma", fmt.Sprintf("hint%d", hi2+1), lm.Tags, smt.True, ec.boolean(h), lm.Name, h.String())
+				fc.S.Assert(ec.boolean(h), "hint (proved as its own obligation)")
+			}
 			fc.oblige("lemma", "direct", lm.Tags, smt.True, ec.boolean(lm.E), lm.Name, lm.E.String())
 			return
 		}
